@@ -66,6 +66,9 @@ func genCodecCase(t *rapid.T) CodecCase {
 	c.Op = ops[rapid.IntRange(0, len(ops)-1).Draw(t, "op")]
 	c.Len = []int{0, 1, n / 2, 3}[rapid.IntRange(0, 3).Draw(t, "len")]
 	c.In = genCtSpec(t, "in", []int{1, 1, 2}, nQ-1)
+	if c.Scheme != "ckks" {
+		c.In.Dims = 0
+	}
 	c.Reuse = rapid.Bool().Draw(t, "reuse")
 	c.Out = genCtSpec(t, "out", []int{1, 2}, nQ-1)
 	c.Hist = rapid.IntRange(0, 3).Draw(t, "hist")
@@ -208,7 +211,11 @@ func runCodec(c CodecCase, rec *h.Rec) error {
 		} else {
 			pt := e.mkPt(c.In, h.NewSplitMix(c.Seed^0x11))
 			pre := snapAny(pt)
+			// the receiving slice has exactly as many entries as the plaintext has slots (a longer slice keeps its tail)
 			full := OpdSpec{Kind: c.Kind}
+			if e.ckksP != nil && pt.LogDimensions.Cols < e.ckksP.LogMaxDimensions().Cols {
+				full.Len = 1 << pt.LogDimensions.Cols
+			}
 			outA := e.mkOperand(full, h.NewSplitMix(c.Seed^0x22)) // previous content
 			outB := e.mkOperand(full, h.NewSplitMix(c.Seed^0x33))
 			errA, panA := protect(func() error { return used.Decode(pt, outA) })
